@@ -21,3 +21,26 @@ Lemma c18_direct_writes : forallb (fun r : string * string * string =>
     negb (String.eqb (snd (fst r)) "with-args") || String.eqb (fst (fst r)) "ServeHTTP") direct_markup_writes = true.
 Proof. vm_compute. reflexivity. Qed.
 Goal True. idtac "@@OBL c18_direct_writes". Abort.
+
+(* every template whose output goes anywhere but a buffer (mail bodies) comes from html/template: a
+   text/template (no escaping at all) or a template of unknown origin executed into a response fails *)
+Lemma c18_templates_html : forallb (fun r : string * string * string * string =>
+    String.eqb (snd r) "buffer" || String.eqb (snd (fst r)) "html") template_executions = true.
+Proof. vm_compute. reflexivity. Qed.
+Goal True. idtac "@@OBL c18_templates_html". Abort.
+
+(* every text/template value constructed in the package is only ever executed into buffers (non-HTML output) *)
+Lemma c18_text_templates_offline : forallb (fun r : string * string * string * string =>
+    String.eqb (snd (fst r)) "buffer-only") text_template_sites = true.
+Proof. vm_compute. reflexivity. Qed.
+Goal True. idtac "@@OBL c18_text_templates_offline". Abort.
+
+(* a function that declares a response text/html (or computes the type) is a PAGE construction of the model: it
+   writes no non-literal value to the response by hand (Model/Html.v: page = Trusted + Escaped only; the failure
+   line with its Raw detail has no declared type) *)
+Definition html_like (ct : string) : bool :=
+  String.prefix "text/html" ct || String.prefix "application/xhtml" ct || String.prefix "image/svg" ct || String.prefix "expr:" ct.
+Lemma c18_html_typed_writers : forallb (fun r : string * string * string =>
+    negb (html_like (snd (fst r)) && String.eqb (snd r) "non-literal")) content_type_writers = true.
+Proof. vm_compute. reflexivity. Qed.
+Goal True. idtac "@@OBL c18_html_typed_writers". Abort.
